@@ -1041,6 +1041,12 @@ def _flc_planted(mo, rng, data, variant, pres=None, decoy=None):
         if tmk == "box":
             tm[:] = 0
             tm[tuple(slice(max(a - 3, 0), a + e + 4) for a, e in zip(lo, ext))] = 1
+        cut = None
+        if tmk == "cut":
+            # the mask removes a bright neighbour that reaches into the planted window: the template is the window of the
+            # *masked* target (identity variant only - exact copy), so the generating pose still scores a perfect match
+            cut = tuple(slice(a + e - max(e // 3, 1), a + e + 2) for a, e in zip(lo, ext))
+            tm[cut] = 0
         kw["target_mask"] = give("mask", tm)
     rev = (slice(None, None, -1),) * 3
 
@@ -1058,7 +1064,9 @@ def _flc_planted(mo, rng, data, variant, pres=None, decoy=None):
     keep = []
     if variant == "identity":
         datan = (data + 0.01 * rng.random(data.shape)) * sc + off
-        tmpl = datan[tuple(slice(a, a + e) for a, e in zip(lo, ext))].copy()
+        if tmk == "cut":
+            datan[cut] += 5.0 * float(np.abs(datan).max())
+        tmpl = (datan if tmk != "cut" else datan * tm)[tuple(slice(a, a + e) for a, e in zip(lo, ext))].copy()
         xp_ = np.array([*lo, 0, 0, 0], dtype=float)
         o = build(datan, tmpl)
         return o, xp_, keep
@@ -1082,6 +1090,15 @@ def _flc_planted(mo, rng, data, variant, pres=None, decoy=None):
 def _sec_planted(ctx, mo, reg, fam, rng, n_scene, n_comp):
     from scipy.spatial.transform import Rotation
     n_pres = {}
+
+    def _tmk(vname):
+        # target-mask kinds of the density score; the exact-copy variant meets every kind in turn ('cut' first)
+        if vname != "identity":
+            return str(rng.choice(["none", "ones", "box"]))
+        n_pres["flc-identity"] = n_pres.get("flc-identity", 0) + 1
+        k = ["cut", "none", "ones", "box"][(n_pres["flc-identity"] - 1) % 4]
+        ctx.count("planted:flc-identity:target_mask=" + k)
+        return k
     for s in range(n_scene):
         data, coords, w = _scene(rng)
         ang0 = rng.uniform(-40, 40, 3)
@@ -1144,7 +1161,7 @@ def _sec_planted(ctx, mo, reg, fam, rng, n_scene, n_comp):
                         if fam[name] == "d2d":
                             fp = None
                             if pres:
-                                fp = (P, sc, float(rng.choice([0.0, 0.5])) * sc, str(rng.choice(["none", "ones", "box"])), negate)
+                                fp = (P, sc, float(rng.choice([0.0, 0.5])) * sc, _tmk(vname), negate)
                                 off = fp[2]
                             o, xp, kept = _flc_planted(mo, rng, data, vname, fp, None if decoy == "none" else decoy)
                             cc = coords
